@@ -238,6 +238,16 @@ DropId(act, id) == IF act = <<>> THEN <<>>
 RECURSIVE HasId(_, _)
 HasId(act, id) == IF act = <<>> THEN FALSE ELSE Head(act).id = id \/ HasId(Tail(act), id)
 
+(* most recent value of BehaviorSubject a after position k of timeline g (initial value I(9)) *)
+RECURSIVE BLatest(_, _, _)
+BLatest(g, k, a) == IF k = 0 THEN I(9)
+                    ELSE IF g[k][1] = a + 200 /\ g[k][2] = "N" THEN g[k][3] ELSE BLatest(g, k - 1, a)
+
+(* position of the marker "shared observable x was connected here" in g (0 if absent) *)
+RECURSIVE MarkPos(_, _, _, _)
+MarkPos(g, t, x, i) == IF i > Len(g) THEN 0
+                       ELSE IF g[i][1] = 0 /\ g[i][2] = t /\ g[i][3] = I(x) THEN i ELSE MarkPos(g, t, x, i + 1)
+
 RECURSIVE HasEnd(_)
 HasEnd(ms) == IF ms = <<>> THEN FALSE ELSE Head(ms)[1] # "N" \/ HasEnd(Tail(ms))
 
@@ -310,6 +320,25 @@ Ref(x, g, lo, hi, var) ==
          IF HasEnd(Sel(SubSeq(g, 1, lo), PA(x))) THEN S(<<>>, "", U)
          ELSE OfMsgs(Sel(SubSeq(g, lo + 1, hi), PA(x)), <<>>)
     [] o = "hotc" -> OfMsgs(Sel(SubSeq(g, lo + 1, hi), PA(x) + 100), <<>>)
+    [] o = "behavior" ->
+         (* the current value first, then every later item; a terminated subject delivers only the current value *)
+         IF HasEnd(Sel(SubSeq(g, 1, lo), PA(x) + 200)) THEN S(<<BLatest(g, lo, PA(x))>>, "", U)
+         ELSE OfMsgs(<<<<"N", BLatest(g, lo, PA(x))>>>> \o Sel(SubSeq(g, lo + 1, hi), PA(x) + 200), <<>>)
+    [] o = "share" \/ o = "publish" ->
+         (* multicast of the ONE subscription to the source made at the connection point c0 *)
+         LET c0 == MarkPos(g, "S", x, 1)
+             d0 == MarkPos(g, "D", x, 1)                      \* the connection was unsubscribed here (0: never)
+             top == IF d0 > 0 /\ d0 < hi THEN d0 ELSE hi
+             (* subscribed before the connection was made (share: the subscription that makes it) *)
+             early == IF o = "share" THEN lo <= c0 ELSE lo < c0
+         IN
+         IF c0 = 0 \/ c0 > hi THEN S(<<>>, "", U)
+         ELSE LET all == MsgsOf(Ref(S1(x), g, c0, top, var)) IN
+              IF early THEN OfMsgs(all, <<>>)
+              ELSE IF lo >= top THEN S(<<>>, "", U)
+              ELSE LET before == MsgsOf(Ref(S1(x), g, c0, lo, var)) IN
+                   IF HasEnd(before) THEN S(<<>>, "", U)
+                   ELSE OfMsgs(SubSeq(all, Len(before) + 1, Len(all)), <<>>)
     [] o \in RefUnaryOps -> RefUnary(x, Ref(S1(x), g, lo, hi, var))
     [] o \in TwoOps ->
          LET z == TwoFold(o, T0, InTL(x, g, lo, lo, hi, var), var) IN OfMsgs(z.out, <<>>)
